@@ -33,8 +33,8 @@ var zzC03 = []zzScenario{
 		alpha: []zzOp{zzRm("/i/{n:digit}"), zzRm("/i/{r:[a-c]+}"), zzRm("/i/{s}"), zzRm("/i/{n:digit}/x"), zzH("/i/{n:digit}", "PUT"), zzPCl("/i/{n"), zzCl(), zzH("/i/{s}/x", "GET")},
 	},
 	{ // 4: an indexed parent (>= 5 children) with a handler-less branch whose leaves go away one by one (two-level pruning)
-		setup: []zzOp{zzH("/m/1", "GET"), zzH("/m/2", "GET"), zzH("/m/3", "GET"), zzH("/m/4", "GET"), zzH("/m/5", "GET"), zzH("/m/6a", "GET"), zzH("/m/6b", "POST"), zzH("/m/{id}", "GET")},
-		alpha: []zzOp{zzRm("/m/6a"), zzRm("/m/6b"), zzRm("/m/1"), zzRm("/m/{id}"), zzPCl("/m/6"), zzPCl("/m/{id"), zzH("/m/6c", "GET"), zzRCl("/m/5")},
+		setup: []zzOp{zzH("/m", "GET", "PUT"), zzH("/m/1", "GET"), zzH("/m/2", "GET"), zzH("/m/3", "GET"), zzH("/m/4", "GET"), zzH("/m/5", "GET"), zzH("/m/6a", "GET"), zzH("/m/6b", "POST"), zzH("/m/{id}", "GET")},
+		alpha: []zzOp{zzRm("/m/6a"), zzRm("/m/6b"), zzRm("/m/1"), zzRm("/m/{id}"), zzPCl("/m/6"), zzPCl("/m/{id"), zzH("/m/6c", "GET"), zzRCl("/m/5"), zzRm("/m"), zzRCl("/m")},
 	},
 }
 
